@@ -78,6 +78,8 @@ unique_ptr<DiscreteDistributionInterface> BppODiscreteDistributionFormat::readDi
       throw Exception("Missing argument 'probas' in Simple distribution");
     vector<double> probas, values;
 
+    if (args["values"].size() < 2 || args["probas"].size() < 2 || (args.find("ranges") != args.end() && args["ranges"].size() < 2))
+      throw Exception("Arguments 'values', 'probas' and 'ranges' of the Simple distribution must be bracketed lists.");
     string rf = args["values"];
     StringTokenizer strtok(rf.substr(1, rf.length() - 2), ",");
     while (strtok.hasMoreToken())
